@@ -256,7 +256,21 @@ func TestC13Hist(t *testing.T) {
 		hMem := limiterApp(cf, nil, nil)
 		ext := newGatedStorage(newSched(), nil) // scheduler without procs: gates pass straight through
 		hExt := limiterApp(cf, ext, nil)
-		var nReq, nFuzzy, n429, nBoundary int
+		var nReq, nFuzzy, n429, nBoundary, nGap int
+		// requests served in the collector's gap: the hook runs in the collector's goroutine; gcOffset is how far the driver's
+		// clock is past the collector's ticks (the store was created on the driver's own grid)
+		var gapReq func()
+		var gapDone bool
+		var gapSt int
+		var gapRA string
+		var gcOffset time.Duration
+		limiter.VerifMemoryGate(func(point string) {
+			if point == "gc.scanned" && gapReq != nil {
+				f := gapReq
+				gapReq = nil
+				f()
+			}
+		})
 		for hi, hist := range hists {
 			for _, storageKind := range []string{"memory", "external"} {
 				h := hMem
@@ -266,11 +280,34 @@ func TestC13Hist(t *testing.T) {
 				prefix := fmt.Sprintf("h%d-", hi)
 				for step, e := range hist {
 					if e.Ev == "tick" {
-						time.Sleep(time.Duration(e.D) * time.Second)
+						// memory storage: every other request that follows a tick is served INSIDE the gap of the store's garbage
+						// collector (between its scan and its sweep), which runs at that very second -- the collector must be
+						// invisible (spec/MemoryStore.tla), wherever a request falls relative to it
+						if storageKind == "memory" && step+1 < len(hist) && hist[step+1].Ev == "req" && (hi+step)%2 == 0 {
+							nx := hist[step+1]
+							time.Sleep(time.Duration(e.D)*time.Second - gcOffset - time.Millisecond)
+							gapDone = false
+							gapReq = func() {
+								gapSt, gapRA = c13Do(h, c13Req{Key: prefix + nx.Key, Max: nx.Max, HS: nx.HS})
+								gapDone = true
+							}
+							time.Sleep(2 * time.Millisecond)
+							gapReq = nil
+							gcOffset = time.Millisecond
+						} else {
+							time.Sleep(time.Duration(e.D) * time.Second)
+						}
 						continue
 					}
 					nReq++
-					st, ra := c13Do(h, c13Req{Key: prefix + e.Key, Max: e.Max, HS: e.HS})
+					var st int
+					var ra string
+					if gapDone {
+						st, ra, gapDone = gapSt, gapRA, false
+						nGap++
+					} else {
+						st, ra = c13Do(h, c13Req{Key: prefix + e.Key, Max: e.Max, HS: e.HS})
+					}
 					if e.Status == 429 {
 						n429++
 					}
@@ -294,7 +331,7 @@ func TestC13Hist(t *testing.T) {
 			}
 			_ = nBoundary
 		}
-		o.summary(map[string]any{"histories": len(hists), "requests": nReq, "rejected_429": n429, "fuzzy_boundary": nFuzzy, "violations": o.nV})
+		o.summary(map[string]any{"histories": len(hists), "requests": nReq, "rejected_429": n429, "fuzzy_boundary": nFuzzy, "requests_served_in_the_collectors_gap": nGap, "violations": o.nV})
 		os.Exit(0)
 	})
 }
